@@ -172,7 +172,7 @@ var c20UnsignedFraming = []string{
 
 func c20Cases(thorough bool) []c20Case {
 	var out []c20Case
-	creds := []string{"valid", "wrong-secret", "anonymous"}
+	creds := []string{"valid", "wrong-secret", "anonymous", "unknown-access-key"}
 	add := func(ep, field, class, val string) {
 		for _, c := range creds {
 			if c != "valid" && !thorough && field != "body" && field != "chunk-framing" && field != "unsigned-framing" {
@@ -324,6 +324,8 @@ func (c c20Case) build(w *World) *gw.Req {
 	switch c.Cred {
 	case "wrong-secret":
 		cred = gw.Creds{Access: gw.RootAccess, Secret: "wrong"}
+	case "unknown-access-key":
+		cred = gw.Creds{Access: "nosuchaccesskey", Secret: "whatever-secret-it-has"}
 	}
 	switch c.Field {
 	case "chunk-framing":
@@ -403,6 +405,7 @@ func c20Worker(r *ck.Run, cases []c20Case, shard, nshards, from int, progress st
 	base := w.F.G.Snapshot(gw.SnapOpts{})
 	_ = base
 	var ms runtime.MemStats
+	stopped := 0
 	for i := from; i < len(cases); i++ {
 		if i%nshards != shard {
 			continue
@@ -442,9 +445,32 @@ func c20Worker(r *ck.Run, cases []c20Case, shard, nshards, from int, progress st
 		}
 		// the gateway must still serve other clients
 		hp := w.F.Do(gw.Root, "HEAD", "/"+w.Other, "", nil, nil)
-		if hp.Err != nil || hp.Status != 200 {
+		if hp.Err == nil && hp.Status == 200 {
+			// ... including clients whose account is not cached and administrators changing accounts
+			// (an account is created, used once and deleted again)
+			pc := gw.Creds{Access: "c20probe", Secret: "c20probesecret012345"}
+			for _, p := range []*gw.Resp{
+				w.F.Do(gw.Root, "PATCH", "/create-user", "", nil, xmlUser(pc, "user", 0, 0)),
+				w.F.Do(pc, "HEAD", "/"+w.Other, "", nil, nil),
+				w.F.Do(gw.Root, "PATCH", "/delete-user", gw.Q("access", pc.Access), nil, nil),
+			} {
+				if p.Err != nil || p.Status >= 500 {
+					hp = p
+					det["probe"] = p.String()
+					break
+				}
+			}
+		}
+		if hp.Err != nil || (hp.Status != 200 && hp.Status != 201) {
 			r.Violation(sig("gateway-stopped-serving"), det)
-			w.Close()
+			stopped++
+			if stopped >= 3 {
+				// every further case would wait for the same time-outs: the verdict is already a violation
+				r.Cap("worker stopped after 3 cases that left the gateway unresponsive")
+				break
+			}
+			// the wedged gateway is abandoned (closing it could wait on what it is stuck in)
+			os.RemoveAll(w.F.Dir)
 			w = c20World()
 		}
 		// keep the fixture usable: rebuild when the case destroyed it
@@ -468,7 +494,7 @@ func C20(r *ck.Run) {
 		c20Worker(r, cases, shard, n, from, os.Getenv("C20_PROGRESS"))
 		return // Finish() writes the partial (VERIF_SHARD is set by the parent)
 	}
-	r.Rule("the valid request of every endpoint shape with ONE field (TWO on the listing endpoints, thorough) replaced by every member of that field's class menu — numbers (empty, 0, -1, 2^31, 2^63, 2^64, 1e3, blanks, full-width digits), ids/markers (absent, 1 KiB, NUL, bad escapes, traversal), 31 XML bodies per document type, 17 JSON policies, copy sources, ranges, header values (empty, huge, type-confused), bucket names, keys, signed and unsigned aws-chunked framing (sizes ffffffffffffffff / 7fffffffffffffff / -1, 1 KiB headers, missing delimiters) — with valid credentials, a wrong secret and no credentials, executed in worker processes the driver restarts when one dies; distinct = distinct case")
+	r.Rule("the valid request of every endpoint shape with ONE field (TWO on the listing endpoints, thorough) replaced by every member of that field's class menu — numbers (empty, 0, -1, 2^31, 2^63, 2^64, 1e3, blanks, full-width digits), ids/markers (absent, 1 KiB, NUL, bad escapes, traversal), 31 XML bodies per document type, 17 JSON policies, copy sources, ranges, header values (empty, huge, type-confused), bucket names, keys, signed and unsigned aws-chunked framing (sizes ffffffffffffffff / 7fffffffffffffff / -1, 1 KiB headers, missing delimiters) — with valid credentials, a wrong secret, an unknown access key and no credentials, each followed by a liveness probe (root request, account creation, request by the new account, account deletion), executed in worker processes the driver restarts when one dies; distinct = distinct case")
 	r.Assume("the worker process stands for the gateway process: a panic that kills it is attributed to the in-flight case; allocation is measured as runtime.MemStats.TotalAlloc delta of the otherwise idle worker (limit 64 MiB + 4×body)")
 	n := 16
 	dir, cleanup := ck.Scratch("c20drv")
